@@ -66,7 +66,7 @@ def fam(index):
         prog = Rule("Ss", Cho([Seq([Clo(Cho([Seq([Ref("Stmt", "stmts")])])), Eoi()])]), ["export"])
         g = Grammar([prog, stmt, call, name] + probe_rules(2))
         ins = []
-        for n in (1, 10, 100, 250, 255, 256, 257, 500, 1000, 1020, 1021, 1022, 1023, 1024, 1025, 1030, 1500, 2100, 3000):
+        for n in (1, 10, 100, 255, 256, 257, 500, 1000, 1021, 1023, 1024, 1025, 1030, 1500):
             ins += ["x;" * n + "f();", "x;" * n, ("x;f(y);" * (n // 2 + 1)) + "z"]
         return g, {"Ss": ins}, []
     if k == 0:
@@ -99,7 +99,7 @@ def fam(index):
         return g, {"Ss": ins}, [("(" * n + "x" + ")" * (n - 1), n) for n in (4, 8, 14)]
     if k == 2:
         # memoized rule probed by a lookahead and then matched for real, in a closure
-        a = Rule("Aa", Cho([Seq([Ref("Probe0"), Grp(Cho([Seq([L("a"), Clo(Cho([Seq([L("b")])])), L("c")])]))])]), ["memoize", "no_skip_ws"])
+        a = Rule("Aa", Cho([Seq([Ref("Probe0"), Grp(Cho([Seq([L("a"), Clo(Cho([Seq([L("b")])])), L("c")])]))])]), ["memoize", "no_skip_ws", "string"])
         s = Rule("Ss", Cho([Seq([Clo(Cho([Seq([Neg(Grp(Cho([Seq([Ref("Aa"), L("q")])]))), Ref("Aa", "items")])])), Opt(Cho([Seq([Ref("Aa"), L("q")])])), Eoi()])]), ["export", "no_skip_ws"])
         g = Grammar([s, a] + probe_rules(1))
         ins = ["abc" * n for n in (1, 2, 4, 8)] + ["abbbc" * n + "acq" for n in (1, 3, 6)] + ["ab" * n for n in (1, 4)] + ["abcabq", "acqac", "abcx"]
